@@ -15,7 +15,8 @@ funds sent equal the declared amount (both orderings of a mismatch rejected) and
 attached TransferFrom(sender -> vault, amount). V4: the first deposit mints MINIMUM_LIQUIDITY_AMOUNT to the vault
 itself, only when total share is zero, a zero user share is rejected, and the vault sends nothing but Mint/Burn to
 its LP token. V5: no ceil-family rounding in deposit / withdraw / share query. V6: no mint while a loan is outstanding
-(shared with C06-X4). Share-price monotonicity and pro-rata bounds are numerical and are not decided.
+(shared with C06-X4). V7: a loan settles only when the balance covers the old balance plus protocol, flash-loan AND burn
+fee (the burn is paid out of the vault, so a fee left out of the requirement is taken from depositors; shared with C06-X3). Share-price monotonicity and pro-rata bounds are numerical and are not decided.
 """
 ASSUMPTIONS = ["the numerical invariants need a dynamic or symbolic technique"]
 
@@ -120,7 +121,7 @@ def run(ctx):
     # V6: the loan counter protocol that keeps deposits out while a loan is outstanding (decided by C06-X4's rules,
     # filed here because a deposit priced against the lent-out balance dilutes the share price)
     from .C06 import check_flash_loan, check_after_trade
-    px = ctx.renamed({"C06-X4": "C05-V6"})
+    px = ctx.renamed({"C06-X4": "C05-V6", "C06-X3": "C05-V7"})   # V7: settlement requires old balance + all three fees
     check_deposit(px, model)
     check_flash_loan(px, model)
     check_after_trade(px, model)
